@@ -92,12 +92,21 @@ def op_strategy(weights=None):
         "read": st.tuples(st.just("read"), st.integers(0, 7), I),
         "bad_call": st.tuples(st.just("bad_call"), st.integers(0, 6), I),
         "turbo": st.tuples(st.just("turbo"), I, I, st.booleans()),
+        # several assignments from one family on ONE target (state-dependent setters: the same property set
+        # twice with values of different kinds, choice-group members replaced, ...)
+        "seq": st.one_of(
+            st.tuples(st.just("fmt"), I, I, st.sampled_from([(0, 6), (7, 10), (11, 14), (15, 24), (15, 18), (17, 18)]).flatmap(
+                lambda r: st.lists(st.tuples(st.integers(r[0], r[1]), st.integers(0, 7)), min_size=2, max_size=5))),
+            st.tuples(st.just("chart_fmt"), I, I, st.lists(st.tuples(st.integers(0, 24), st.integers(0, 6)), min_size=2, max_size=5)),
+            st.tuples(st.just("table_op"), I, I, st.lists(st.tuples(st.integers(0, 9), st.integers(0, 5), st.integers(0, 5),
+                                                                     st.integers(0, 5), st.integers(0, 5)), min_size=2, max_size=5)),
+        ).map(lambda t: ("seq", [[t[0], t[1], t[2]] + list(x) for x in t[3]])),
         "save": st.tuples(st.just("save")),
         "save_reopen": st.tuples(st.just("save_reopen")),
     }
     default_w = {"add_slide": 3, "add_shape": 4, "add_textbox": 3, "add_connector": 2, "add_picture": 3, "add_group": 3,
                  "add_freeform": 2, "add_table": 2, "add_chart": 3, "replace_data": 2, "add_movie": 1, "add_ole": 1,
-                 "ph_insert": 2, "set_text": 4, "para_op": 3, "fmt": 6, "table_op": 4, "chart_fmt": 4, "hyperlink": 3, "link_burst": 2,
+                 "ph_insert": 2, "set_text": 4, "para_op": 3, "fmt": 6, "table_op": 4, "chart_fmt": 4, "seq": 5, "hyperlink": 3, "link_burst": 2,
                  "run_hyperlink": 2, "target_slide": 2, "notes": 2, "remove_layout": 1, "core_prop": 1, "slide_prop": 1,
                  "read": 2, "bad_call": 1, "turbo": 1, "save": 3, "save_reopen": 2}
     w = dict(default_w)
@@ -785,14 +794,24 @@ class Interp:
                         pass
             elif kind == 18:
                 # out of domain
-                if v % 3 == 0:
+                if v == 0:
                     ch.chart_style = 49
-                elif v % 3 == 1 and plot is not None and hasattr(plot, "gap_width"):
+                elif v == 1 and plot is not None and _has(plot, "gap_width"):
                     plot.gap_width = 501
-                else:
+                elif v == 2:
                     ax = axis(1)
-                    if ax is not None and hasattr(ax, "major_unit"):
+                    if ax is not None and _has(ax, "major_unit"):
                         ax.major_unit = -1
+                elif v == 3 and ch.has_legend:
+                    ch.legend.horz_offset = 1.5
+                elif v == 4:
+                    ax = axis(0)
+                    if ax is not None and _has(ax.tick_labels, "offset"):
+                        ax.tick_labels.offset = 1001
+                elif v == 5 and plot is not None and _has(plot, "overlap"):
+                    plot.overlap = 101
+                elif v == 6 and plot is not None and len(plot.series) and _has(plot.series[0], "marker"):
+                    plot.series[0].marker.size = 73
             elif kind == 19:
                 ax = axis(v % 2)
                 if ax is not None:
@@ -847,6 +866,17 @@ class Interp:
         info.update(slide=sl, target=sh)
         info.setdefault("targets", []).append(sh)
         return self._call("run_hyperlink", f)
+
+    def op_seq(self, info, subops):
+        """sub-operations that address the same slide and target; each is a full step (hooks run per sub-op)"""
+        out = "skipped"
+        for sub in subops:
+            if self.stopped:
+                break
+            r = self.step(list(sub))
+            if r != "skipped":
+                out = "ok"
+        return out
 
     def op_link_burst(self, info, slide_i, items):
         """several hyperlink assignments on few shapes of one slide: shared, re-assigned and cleared URLs"""
